@@ -557,10 +557,14 @@ class C12(ServerProp):
             r = rng.random()
             if r < 0.45:
                 name = rng.choice(list(files) + ["missing"])
-                cl.append("d:%s:%d:%d" % (name, rng.choice([8, 16, 512, 1024]), rng.choice([1, 2, 3, 8])))
+                db = rng.choice([512, 1024, 2048]) if name in ("b", "sub/d") else rng.choice([8, 16, 512, 1024, 2048])
+                cl.append("d:%s:%d:%d" % (name, db, rng.choice([1, 2, 3, 8])))
             elif r < 0.8:
                 ups += 1
-                cl.append("u:up%d:%d:%d:gen:%d:%d" % (ups, rng.choice([8, 16, 512]), rng.choice([1, 2, 4]), rng.choice([0, 5, 16, 70, 1200]), rng.randint(0, 255)))
+                ub = rng.choice([8, 16, 512, 1024, 1428, 4096])
+                # at most ~24 blocks: every turn of a scripted client costs a quiet-wait
+                usz = rng.choice([0, 5, ub - 1, ub, 2 * ub + 3, 5 * ub, 12 * ub + 1, 24 * ub - 1])
+                cl.append("u:up%d:%d:%d:gen:%d:%d" % (ups, ub, rng.choice([1, 2, 4]), usz, rng.randint(0, 255)))
             else:
                 cl.append("i:" + rng.choice(["ack", "data", "err", "oack"]))
         fs = ",".join("srv/%s=%s" % (n, c) for n, c in files.items())
@@ -580,6 +584,13 @@ class C12(ServerProp):
             for s in scheds:
                 lines.append("multi %s %s %s %s %s" % (self.root(i), flags, fs, s, " ".join(cl)))
                 i += 1
+        for flags in ["-", "s"]:
+            for sched in ["0101010101", "0011001100", "1000000000", "0100000000", "0010000000"]:
+                for second in ["d:c:8:1", "u:up2:8:1:gen:30:1", "d:c:512:1"]:
+                    lines.append("multi %s %s srv/c=gen:16:3 %s u:up1:1024:1:gen:2148:7 %s" % (self.root(i), flags, sched, second))
+                    i += 1
+                    lines.append("multi %s %s srv/c=gen:16:3,srv/big=gen:9000:5 %s d:big:4096:2 %s" % (self.root(i), flags, sched, second))
+                    i += 1
         n = 250 if tier == "quick" else 6000
         for _ in range(n):
             k = rng.randint(2, 4 if tier == "quick" else 9)
